@@ -1253,15 +1253,16 @@ Lemma dl_nowin cv j : cv_win cv = false -> dl cv j = false.
 Proof. intros H. unfold dl. rewrite H. reflexivity. Qed.
 
 Lemma trans1_roundtrip cf ct (Hokf : conv_ok cf) (Hokt : conv_ok ct) rf rt p :
-  same_syntax cf ct -> abs_path cf rf -> abs_path ct rt -> cv_win cf = false -> cv_win ct = false ->
+  same_syntax cf ct -> abs_path cf rf -> abs_path ct rt ->
   is_subpath cf rf p false <> NotSub ->
-  exists q back, trans1 cf ct rf rt p = Some q /\ trans1 ct cf rt rf q = Some back /\
-                 paths_match cf back p false = true.
+  exists q, trans1 cf ct rf rt p = Some q /\
+    (dl ct q = false ->
+     exists back, trans1 ct cf rt rf q = Some back /\ paths_match cf back p false = true).
 Proof.
-  intros Hsyn Haf Hat Hwf Hwt Hin.
+  intros Hsyn Haf Hat Hin.
   destruct (is_subpath cf rf p false) as [|r] eqn:Hr; [contradiction|]. clear Hin.
   pose proof (is_subpath_components cf Hokf _ _ _ _ Hr) as Hcomp.
-  exists (join ct [rt; r]). rewrite (trans1_inside _ _ _ _ _ _ Hr).
+  exists (join ct [rt; r]). rewrite (trans1_inside _ _ _ _ _ _ Hr). split; [reflexivity|]. intros Hdl.
   assert (Hrf : rf <> []) by (destruct Haf as [g Hg]; intros ->; discriminate).
   assert (Hrt : rt <> []) by (destruct Hat as [g Hg]; intros ->; discriminate).
   assert (Hnrf : nps cf rf <> []) by (destruct Haf as [g Hg]; rewrite Hg; discriminate).
@@ -1269,7 +1270,7 @@ Proof.
   destruct (strip (cv_sep ct) (nps ct r)) as [|z w] eqn:Es.
   - (* blank relative part: the path is the root *)
     rewrite (join_blank ct rt r Hat Es).
-    exists (nps cf rf). split; [reflexivity|]. split.
+    exists (nps cf rf). split.
     + rewrite (trans1_inside _ _ _ _ _ _ (is_subpath_self ct rt Hrt Hnrt)).
       f_equal. apply join_blank; [exact Haf|].
       rewrite <- (proj1 Hsyn), nps_sep. unfold strip. simpl lstrip. rewrite N.eqb_refl. reflexivity.
@@ -1278,8 +1279,8 @@ Proof.
       { rewrite (pc_syn cf ct r Hsyn). rewrite <- comps_nps, <- comps_strip, Es. reflexivity. }
       rewrite Hpr. unfold lowk at 3. destruct (cv_cs cf); simpl; rewrite app_nil_r; reflexivity.
   - assert (Hne : strip (cv_sep ct) (nps ct r) <> []) by (rewrite Es; discriminate).
-    pose proof (join_inside_eq ct Hokt rt r false Hat Hne (dl_nowin ct _ Hwt)) as Hback.
-    eexists. split; [reflexivity|]. split; [apply (trans1_inside _ _ _ _ _ _ Hback)|].
+    pose proof (join_inside_eq ct Hokt rt r false Hat Hne Hdl) as Hback.
+    eexists. split; [apply (trans1_inside _ _ _ _ _ _ Hback)|].
     apply match_iff_key; [exact Hokf|]. rewrite <- !lowk_key, Hcomp, pc_join. cbn [map concat].
     rewrite app_nil_r, lowk_app. f_equal. f_equal.
     rewrite (pc_syn cf ct _ Hsyn), pc_sep_strip. symmetry. apply pc_syn. exact Hsyn.
@@ -1304,20 +1305,23 @@ Proof. intros Hok Ha. rewrite translate_trans1. apply trans1_lands_inside; assum
 
 Theorem translate_roundtrip cv0 cv1 r0 r1 side p :
   conv_ok cv0 -> conv_ok cv1 -> same_syntax cv0 cv1 -> abs_path cv0 r0 -> abs_path cv1 r1 ->
-  cv_win cv0 = false -> cv_win cv1 = false ->
   is_subpath (cv_of cv0 cv1 (negb side)) (root_of r0 r1 (negb side)) p false <> NotSub ->
-  exists q back,
+  exists q,
     translate cv0 cv1 r0 r1 side p = Some q /\
-    translate cv0 cv1 r0 r1 (negb side) q = Some back /\
-    paths_match (cv_of cv0 cv1 (negb side)) back p false = true.
+    (dl (cv_of cv0 cv1 side) q = false ->
+     exists back,
+       translate cv0 cv1 r0 r1 (negb side) q = Some back /\
+       paths_match (cv_of cv0 cv1 (negb side)) back p false = true).
 Proof.
-  intros H0 H1 Hs Ha0 Ha1 Hw0 Hw1.
+  intros H0 H1 Hs Ha0 Ha1.
   assert (Hs' : same_syntax cv1 cv0) by (destruct Hs; split; symmetry; assumption).
   destruct side; cbn [negb cv_of root_of]; intros Hin.
-  - destruct (trans1_roundtrip cv0 cv1 H0 H1 r0 r1 p Hs Ha0 Ha1 Hw0 Hw1 Hin) as [q [back [A [B C]]]].
-    exists q, back. rewrite !translate_trans1. cbn [negb cv_of root_of]. auto.
-  - destruct (trans1_roundtrip cv1 cv0 H1 H0 r1 r0 p Hs' Ha1 Ha0 Hw1 Hw0 Hin) as [q [back [A [B C]]]].
-    exists q, back. rewrite !translate_trans1. cbn [negb cv_of root_of]. auto.
+  - destruct (trans1_roundtrip cv0 cv1 H0 H1 r0 r1 p Hs Ha0 Ha1 Hin) as [q [A B]].
+    exists q. rewrite translate_trans1. cbn [negb cv_of root_of]. split; [exact A|]. intros Hdl.
+    destruct (B Hdl) as [back [B1 B2]]. exists back. rewrite translate_trans1. cbn [negb cv_of root_of]. auto.
+  - destruct (trans1_roundtrip cv1 cv0 H1 H0 r1 r0 p Hs' Ha1 Ha0 Hin) as [q [A B]].
+    exists q. rewrite translate_trans1. cbn [negb cv_of root_of]. split; [exact A|]. intros Hdl.
+    destruct (B Hdl) as [back [B1 B2]]. exists back. rewrite translate_trans1. cbn [negb cv_of root_of]. auto.
 Qed.
 
 (* replace_path lands inside the new folder, with an equivalent relative part, also for the root *)
